@@ -84,8 +84,17 @@ def gen_history(rng, idx):
     for t in names:
         if t in alive:
             prog.append({"t": t, "op": rng.choice(["commit", "commit", "rollback"])})
-    return {"id": f"h{idx}", "backend": "unistore", "splits": splits, "preload": preload, "batch_size": rng.choice([0, 0, 24]),
-            "txn": {"mode": "2pc", "ops": []}, "txns": txns, "program": prog, "keys": KEYS, "black_from": -1}
+    # in a third of the histories another client reads every key at a fresh timestamp just before some requests of t1's
+    # client are delivered (meets half-written transactions, pushes min-commit timestamps under a running commit), and a
+    # sixth runs with the store declining async commit / 1PC (fallback to 2PC)
+    extras = []
+    if rng.random() < 0.34:
+        extras = [{"at": a, "what": "push_min_commit", "k": ""} for a in sorted(rng.sample(range(0, 24), rng.randrange(2, 7)))]
+    sc = {"id": f"h{idx}", "backend": "unistore", "splits": splits, "preload": preload, "batch_size": rng.choice([0, 0, 24, 3]),
+          "txn": {"mode": "2pc", "ops": []}, "txns": txns, "program": prog, "keys": KEYS, "black_from": -1, "extras": extras}
+    if rng.random() < 0.17:
+        sc["safe_window_ms"] = 0
+    return sc
 
 
 def si_history_ok(sc, r, obs_out=None):
